@@ -113,6 +113,14 @@ pub fn describe(p: &Pic) -> String {
 /// Replayer for `decode` cases: feeds the recorded byte strings to a fresh decoder.
 pub fn replay_decode(case: &Value) {
     let opts = case["options"].as_u64().unwrap_or(1) as u8;
+    // a failure may depend on what another decoder did on this thread just before
+    if let Some(prev) = case.get("preceding_case_same_thread").filter(|p| p.is_object()) {
+        let mut other = H263State::new(options_from_bits(prev["options"].as_u64().unwrap_or(1) as u8));
+        for s in prev["steps"].as_array().into_iter().flatten() {
+            let o = decode_bytes(&mut other, &crate::bits::unhex(s.as_str().unwrap_or("")));
+            println!("preceding case (another decoder, same thread): {}", o.short());
+        }
+    }
     let mut st = H263State::new(options_from_bits(opts));
     println!("decoder options bits = {opts} ({})", case["note"].as_str().unwrap_or(""));
     for (i, s) in case["steps"].as_array().unwrap().iter().enumerate() {
